@@ -97,7 +97,7 @@ manifest = {
  "setup_cmd": "./check build",
  "hooks": {
    "guard": "sonic_rs_verif",
-   "enable": "RUSTFLAGS=\"--cfg sonic_rs_verif\" (set by ./check for both build configurations; /repo/Cargo.toml and Cargo.lock carry no new dependency)",
+   "enable": "RUSTFLAGS=\"--cfg sonic_rs_verif\" (set by ./check for all three build configurations: native, baseline, native with debug assertions; /repo/Cargo.toml and Cargo.lock carry no new dependency)",
    "baseline_off_cmd": "cd /repo && cargo nextest run --workspace --no-fail-fast --tool-config-file pb:/w/lib/nextest.toml --profile pb --test-threads 8 --offline || (cd /repo && cargo test --workspace --no-fail-fast --offline)",
    "source_commits": hook_commits,
    "add_only": False,
